@@ -234,7 +234,7 @@ def obligations(tier: str, known: List[str]) -> List[Ob]:
     thorough = tier == "thorough"
     obs: List[Ob] = []
     T = 1500 if thorough else 600
-    for kind in ("wrong-signature", "wrong-signature-on-side-branch", "apply-error-missing-output"):
+    for kind in ("wrong-signature", "wrong-signature-on-side-branch", "apply-error-missing-output", "stated-height-without-ancestors"):
         obs.append(Ob("relayed-block[%s]" % kind, C_A + "; " + C_R, "relayed", {"kind": kind}, timeout=T))
     for shape in SHAPES:
         for c in range(10):
